@@ -19,7 +19,8 @@
        (out D S) mod 2^16 = o.
    Statements only; proofs are [exact]. *)
 From Coq Require Import ZArith List Bool.
-From Galene Require Import Lib.Word Generated.Consts Model.PacketMap.
+From Galene Require Import Lib.Word Generated.Consts Model.Layers Model.Forward Proofs.ForwardProps.
+From Galene Require Import Model.PacketMap.
 From Galene Require Import Proofs.PacketMapGhost Proofs.PacketMapView Proofs.PacketMapSpec Proofs.PacketMapOut.
 Import ListNotations.
 Open Scope Z_scope.
@@ -56,6 +57,20 @@ Print Assumptions C01_order_preserved.
 Theorem C01_injective : forall D a b, NoDup D -> ~ In a D -> ~ In b D -> out D a = out D b -> a = b.
 Proof. exact out_inj. Qed.
 Print Assumptions C01_injective.
+
+(* rtpDownTrack.Write (Model/Forward.v): the number in bytes 2-3 of a packet
+   that is sent is the number the packet map assigned to it by Map, after a
+   Drop attempt that did not withhold it; so the statements above are about
+   the numbers receivers see *)
+Theorem C01_write_number : forall vp8 st f buf d, bytes_ok buf ->
+  nth 2 buf 0 * 256 + nth 3 buf 0 = f_seqno f ->
+  snd (fst (write vp8 st f buf)) = WSent d ->
+  exists m1 newseq pd m2,
+    (m1 = fs_map st \/ exists p, pm_drop (fs_map st) (f_seqno f) (f_pid f) = (false, m1) /\ p = tt) /\
+    pm_map m1 (f_seqno f) (f_pid f) = ((true, newseq, pd), m2) /\
+    (0 <= newseq < 65536 -> nth 2 d 0 * 256 + nth 3 d 0 = newseq).
+Proof. exact write_number. Qed.
+Print Assumptions C01_write_number.
 
 (* the constants the proofs were made for are the ones in the source *)
 Theorem C01_constants : window = 8192 /\ retireAge = 16384 /\ 1 <= maxEntries /\
